@@ -72,6 +72,7 @@ type PredDef struct {
 	Ret    string
 	Body   *Node
 	Pkg    string
+	Rec    bool // recursive spec function: uninterpreted symbol + defining axiom
 }
 
 type GuardedBy struct {
@@ -153,7 +154,7 @@ func loadSpecs(repo, libDir string) *SpecDB {
 	return db
 }
 
-var clauseKeywords = []string{"func", "assume", "env", "pred", "spec", "table", "layout", "guarded_by", "requires", "ensures",
+var clauseKeywords = []string{"rec", "func", "assume", "env", "pred", "spec", "table", "layout", "guarded_by", "requires", "ensures",
 	"modifies", "decreases", "forall-params", "loop", "frame-fresh", "pure", "log", "consts", "trusted", "end"}
 
 func startsWithKeyword(s string) string {
@@ -251,13 +252,14 @@ func (db *SpecDB) readFile(path, repo string) {
 			curEnv = &EnvSpec{Name: rest, Pkg: pkg}
 			cur = nil
 			db.Envs[rest] = curEnv
-		case "pred", "spec":
+		case "pred", "spec", "rec":
 			pd, err := parsePredDef(rest)
 			if err != nil {
 				fail(err)
 				continue
 			}
 			pd.Pkg = pkg
+			pd.Rec = kw == "rec"
 			db.Preds[pd.Name] = pd
 		case "guarded_by":
 			parts := strings.SplitN(rest, ":", 2)
@@ -818,7 +820,7 @@ func (p *parser) mul() (*Node, error) {
 }
 
 func (p *parser) unary() (*Node, error) {
-	if p.isOp("!") || p.isOp("-") {
+	if p.isOp("!") || p.isOp("-") || p.isOp("*") {
 		op := p.peek().val
 		p.pos++
 		x, err := p.unary()
@@ -938,10 +940,6 @@ func (p *parser) primary() (*Node, error) {
 				return nil, err
 			}
 			return x, nil
-		}
-		if t.val == "*" {
-			p.pos++
-			return &Node{Kind: "star"}, nil
 		}
 	}
 	return nil, fmt.Errorf("unexpected token %q", t.val)
